@@ -248,6 +248,7 @@ RULES = [
     ("C13-R3", "date regex groups and their use, output format, local-time conversion of time columns [shared with C13]", lambda ctx: __import__("c13").r3(ctx)),
     ("X-OPERANDS", "each operand of a comparison is evaluated afresh (no memo shared between operands or conditions: a remembered value comes back as text) [shared]", lambda ctx: __import__("conf").operands_evaluated_afresh(ctx)),
     ("X-NAMES", "column names and function names do not overlap (a bare word is tried as a column first) [shared]", lambda ctx: __import__("extra2").names_disjoint(ctx)),
+    ("X-LEXCLASS", "lexer character classes, context flags, token ends and quoted-literal ends [shared]", lambda ctx: __import__("extra").lexer_classes(ctx)),
 ]
 
 EXPLANATION = (
